@@ -353,6 +353,23 @@ def effect_skeleton(ctx, f):
     return out
 
 
+def _passes_through(ctx, t, sp, depth):
+    """t is the given stream itself, boxed — directly or by a local helper that does nothing but box its argument"""
+    t = unmut(t)
+    if t == sp:
+        return True
+    if depth > 3 or not (isinstance(t, tuple) and t and t[0] == "call"):
+        return False
+    if t[1] == "alloc::boxed::Box::<T>::new" and len(t[2]) == 1:
+        return _passes_through(ctx, t[2][0], sp, depth + 1)
+    g = ctx.fn(t[1]) if t[1] in ctx.facts.fns else None
+    if g is not None and len(t[2]) == 1 and len(g["params"]) == 1 and not any(absint.is_codec_ctor(c["fn"]) for c in calls(g["body"])):
+        ga = ctx.fa(g)
+        own = V("param:" + ga.param_names[0])
+        return bool(ga.paths) and all(p.exit in ("ok", "tail", "unit") and _passes_through(ctx, p.value, own, depth + 1) for p in ga.paths) and _passes_through(ctx, t[2][0], sp, depth + 1)
+    return False
+
+
 def r_twin(ctx):
     obs = []
     if "async" not in ctx.facts.features:
@@ -476,7 +493,7 @@ def r_factory(ctx):
                 ctors = [t for t in subterms(v) if t[0] == "call" and absint.is_codec_ctor(t[1])]
                 wraps_param = sp is not None and any(t == sp for t in subterms(v))
                 if arm == "None":
-                    ok = not ctors and is_call_to(v, lambda s: s == "core::result::Result::Ok") and is_call_to(v[2][0], lambda s: s == "alloc::boxed::Box::<T>::new") and v[2][0][2][0] == sp
+                    ok = not ctors and is_call_to(v, lambda s: s == "core::result::Result::Ok") and v[2] and unmut(v[2][0]) != sp and _passes_through(ctx, v[2][0], sp, 0)
                     obs.append(Ob("R-FACTORY", fn, "None arm passes the stream through", ok, "returns %s" % tstr(v)[:100], rel(f["loc"])))
                 else:
                     fam = FAMILY.get(arm, ())
